@@ -1,0 +1,57 @@
+//go:build verif
+
+package rueidis
+
+import "sync/atomic"
+
+// Exports for the verification harness (family acc: reply accessors, selectors). Add-only.
+
+// VerifMsgInt builds a RedisMessage that carries only an integer (":" "#" "_" and friends).
+func VerifMsgInt(typ byte, v int64) RedisMessage {
+	return RedisMessage{typ: typ, intlen: v}
+}
+
+// VerifMsgStr builds a RedisMessage that carries a string payload.
+func VerifMsgStr(typ byte, s string) RedisMessage {
+	m := RedisMessage{typ: typ}
+	m.setString(s)
+	return m
+}
+
+// VerifMsgArr builds a RedisMessage that carries child messages (a non-nil, possibly empty, array).
+func VerifMsgArr(typ byte, vs []RedisMessage) RedisMessage {
+	if vs == nil {
+		vs = make([]RedisMessage, 0)
+	}
+	m := RedisMessage{typ: typ}
+	m.setValues(vs)
+	return m
+}
+
+// VerifWithAttrs attaches an attribute message.
+func VerifWithAttrs(m RedisMessage, attrs RedisMessage) RedisMessage {
+	m.attrs = &attrs
+	return m
+}
+
+// VerifMsgView exposes the raw fields of a RedisMessage.
+func VerifMsgView(m RedisMessage) (typ byte, str string, hasArr bool, arr []RedisMessage, intlen int64) {
+	return m.typ, m.string(), m.array != nil, m.values(), m.intlen
+}
+
+// VerifRedisError builds a *RedisError with the given type byte and text.
+func VerifRedisError(typ byte, text string) *RedisError {
+	m := VerifMsgStr(typ, text)
+	return (*RedisError)(&m)
+}
+
+// VerifPickAZ runs pickAZ with a chosen counter value and returns the index and the new counter value.
+func VerifPickAZ(nodes []NodeInfo, clientAZ string, startIdx int, counter uint32) (int, uint32) {
+	var c atomic.Uint32
+	c.Store(counter)
+	idx := pickAZ(nodes, clientAZ, startIdx, &c)
+	return idx, c.Load()
+}
+
+// VerifFixIPv6HostPort exports fixIPv6HostPort.
+func VerifFixIPv6HostPort(addr string) string { return fixIPv6HostPort(addr) }
